@@ -148,7 +148,7 @@ Fixpoint find_while (c : stmt) : option (stmt * string * stmt) :=
   match c with
   | SWhile a x b => Some (a, x, b)
   | SSeq a b | SIf _ a b => match find_while a with Some r => Some r | None => find_while b end
-  | SCall a => find_while a
+  | SCall _ a | SCallRet _ a => find_while a
   | STryElse a b c0 => match find_while a with Some r => Some r | None => match find_while b with Some r => Some r | None => find_while c0 end end
   | _ => None
   end.
@@ -491,7 +491,7 @@ Proof.
   assert (Tm : (match mode_str m with EmptyString => false | _ => true end) = true) by (destruct m; reflexivity).
   assert (Em : eval (mkst f (mks p w c) at_ lo) (EOr (ELocal "mode") (EAttr "mode")) = Val (VStr (mode_str m))).
   { cbn [eval attrs locals]. destruct Lm0 as [Lm|[Lm Am]]; rewrite Lm; cbn [truthy]; [rewrite Tm; reflexivity|rewrite Am; reflexivity]. }
-  cbn [exec]. rewrite Em. cbn [set_attr attrs locals file strm exec eval]. rewrite !lookup_set_same.
+  cbn [exec]. rewrite Em. cbn [set_attr attrs locals file strm exec eval bind_args]. rewrite !lookup_set_same.
   set (at1 := set_env at_ "mode" (VStr (mode_str m))).
   set (hm := mkh (toc h) (last h) (eof h) m false).
   assert (Main : forall wflag, wflag = match m with MA => true | MR => false end ->
@@ -573,7 +573,7 @@ Theorem getitem_code fuel s h k :
   file s' = file s /\ attrs s' = attrs s /\ s_wr (strm s') = s_wr (strm s) /\ s_closed (strm s') = s_closed (strm s) /\
   o = out_of_res (get (file s) h k).
 Proof.
-  intros R L. pose proof (get_code fuel s h k R L) as G. unfold getitem_prog. cbn [exec].
+  intros R L. pose proof (get_code fuel s h k R L) as G. unfold getitem_prog. cbn [exec bind_args].
   destruct (exec fuel get_prog s) as [s1 o1]. destruct G as [G1 [G2 [G3 [G4 G5]]]].
   assert (o1 <> ONormal /\ o1 <> OBreak) as [N1 N2].
   { rewrite G5. unfold get. destruct (closed h); [|destruct (lookup (toc h) k)]; unfold out_of_res; split; discriminate. }
@@ -593,7 +593,7 @@ Theorem setitem_code fuel s h k v :
   let '(f', h', r) := put (file s) h k v in
   file s' = f' /\ Rep s' h' /\ o = out_of_res r.
 Proof.
-  intros R Lk Lv. unfold setitem_prog. cbn [exec eval]. rewrite Lv.
+  intros R Lk Lv. unfold setitem_prog. cbn [exec eval bind_args]. rewrite Lv.
   set (s0 := set_local s "value" (VBytes v)).
   assert (R0 : Rep s0 h) by (destruct R; constructor; assumption).
   assert (Lk0 : lookup_env (locals s0) "key" = Some (VBytes k)) by (unfold s0; cbn [set_local locals]; rewrite lookup_set_other by discriminate; exact Lk).
@@ -610,7 +610,7 @@ Theorem exit_code fuel s h :
   let '(s', o) := exec fuel exit_prog s in
   file s' = file s /\ Rep s' (close_ h) /\ o = ONormal.
 Proof.
-  intros R M. pose proof (close_code fuel s h R M) as C. unfold exit_prog. cbn [exec].
+  intros R M. pose proof (close_code fuel s h R M) as C. unfold exit_prog. cbn [exec bind_args].
   destruct (exec fuel close_prog s) as [s1 o1]. destruct C as [C1 [C2 [C3 C4]]]. subst o1. split; [exact C1|split; [apply rep_restore; exact C2|reflexivity]].
 Qed.
 
@@ -628,7 +628,7 @@ Theorem enter_code fuel s h m h1 h2 b0 rest :
   let '(f', h') := open_ (file s) h m in
   file s' = f' /\ o = OReturn VSelf /\ Rep s' h'.
 Proof.
-  intros Hfuel Hf L1 L2 L0 At Al Ae Ac As An Ain Am. unfold enter_prog. cbn [exec eval].
+  intros Hfuel Hf L1 L2 L0 At Al Ae Ac As An Ain Am. unfold enter_prog. cbn [exec eval bind_args].
   set (s0 := set_local s "mode" VNone).
   assert (Lm : lookup_env (locals s0) "mode" = Some (VStr (mode_str m)) \/
                (lookup_env (locals s0) "mode" = Some VNone /\ lookup_env (attrs s0) "mode" = Some (VStr (mode_str m)))).
